@@ -23,12 +23,12 @@ import (
 // replayer builds one native test binary per harness package (through go test -overlay, no file is
 // added to /repo) and runs harness entries under scripted values.
 type replayer struct {
-	cfg     Config
-	overlay map[string]string
-	scratch string
-	bins    map[string]string // pkgdir -> test binary ("" = build failed)
+	cfg      Config
+	overlay  map[string]string
+	scratch  string
+	bins     map[string]string // pkgdir -> test binary ("" = build failed)
 	buildLog map[string]string
-	all     []entryInfo
+	all      []entryInfo
 }
 
 func newReplayer(cfg Config, overlay map[string]string) *replayer {
